@@ -19,6 +19,13 @@ import time
 import types
 
 
+def _mkscratch():
+    """tempfile.mkdtemp(prefix="verif-"), on tmpfs when TMPDIR is not set (directory-heavy scenarios
+    are ~4x faster there and do not contend on the ext4 journal when sharded over 16 workers)."""
+    base = os.environ.get("TMPDIR") or ("/dev/shm" if os.access("/dev/shm", os.W_OK | os.X_OK) else None)
+    return tempfile.mkdtemp(prefix="verif-", dir=base)
+
+
 # --------------------------------------------------------------------------- accumulator
 def _size(inp):
     text = json.dumps(inp, default=str, sort_keys=True)
@@ -525,7 +532,7 @@ def _create_or_load():
         [("//:a", 1), ("//x:b", 2), ("//x:c", 3)],
     ]
     clocks = [0.0, 1.5, 50.0, 100.0, 499.9, 500.0, 500.5, 600.0, 700.0, 1000.0]
-    scratch = tempfile.mkdtemp(prefix="verif-")
+    scratch = _mkscratch()
     try:
         for n, rows in enumerate(row_sets):
             path = pathlib.Path(scratch, "p%d" % n, "cond-out", "version_index.sqlite")
